@@ -4,8 +4,9 @@ from .conc_common import *
 import itertools
 
 RULE = ("programs: 1-3 worker tasks (open / data writes / parked reads / pending opens awaiting their verdict, each with the open "
-        "timer as fallback) on a plain or freshly started client session plus one termination cause -- owner close, peer EOF, read error, "
-        "fatal Alert (fed to recv_loop), or a transport write failure -- injected at every position of a bounded interleaving (quick: all "
+        "timer as fallback) on a plain or freshly started client session plus one termination cause -- owner close, peer EOF (also 3 / 7 / 12 bytes "
+        "into a frame), read error, fatal Alert (fed to recv_loop), or a transport write failure (at a burst boundary, and at byte offsets 1..900 "
+        "inside a burst) -- injected at every position of a bounded interleaving (quick: all "
         "placements of the cause among the first steps of two workers; then random schedules), followed by a round-robin drain long enough "
         "for every task to finish. Non-trivial = the cause fires while at least one worker is in the middle of a call or parked; "
         "distinct by sha256 of (programs, schedule).")
